@@ -6,7 +6,7 @@ V = os.path.dirname(os.path.dirname(os.path.abspath(__file__)))
 CLAIMED = {
     "C01": dict(
         text="Executable Lean 4 model of the RPU parser and writer (lean/DoviModel/Model/Rpu.lean, RpuWrite.lean, transliterated separately from the Rust parse and write functions) with kernel-checked theorems about it; the model is tied to the real code on every run by running both on the same structured, mutated and prefixed RPUs (parse JSON and unmodified write, raw and NAL entry points) and the property itself is evaluated directly on the real code for every case (write(parse x) in {x, error}).",
-        note="Trusted: Lean kernel, the correspondence harness, the independent encoder used as generator. Hypothesis named in the theorems: se(v) code numbers < 2^53 (third-party get_se goes through f64). The write->parse theorem (C03.write_parse_sound) applies to every parse result inside RpuWf (counted in the evidence); the exact inverse direction write(parse x) = x is under proof (Proofs/Pw*.lean) and until then rests on write_unmodified_crc + correspondence + the direct oracle on every generated input. The CLI-level clause is checked directly (editor {} on RPU files at chunk sizes dividing the file size) and by C05/C09.",
+        note="Trusted: Lean kernel, the correspondence harness, the independent encoder used as generator. Hypothesis named in the theorems: se(v) code numbers < 2^53 (third-party get_se goes through f64). C01.parse_write_exact is proved (unbounded): for every byte string the model parser accepts whose integer coefficient parts are below 2^52 in magnitude, the unmodified write is the input byte for byte or fails; entry_write_exact and nalu_write_exact lift it to the prefixed and HEVC NAL entry points (escaped form identical when the input was canonically escaped); reparse_same gives parse(write(parse x)) = parse x. The evidence counts how many accepted inputs of the run lie inside the hypothesis; above the bound (f64 rounding in the third-party get_se, witness PwMap.readSe_rounding_witness) only the CRC guard, the correspondence and the direct oracle apply. The CLI-level clause is checked directly (editor {} on RPU files at chunk sizes dividing the file size) and by C05/C09.",
         design="DESIGN.md section 7 C01",
         technique="Lean 4 proof over a hand-written model + differential model/implementation correspondence + direct oracle"),
     "C02": dict(
